@@ -86,4 +86,15 @@ def devUdf (i : Input) : Bool := i.chain.contains .udf && (i.cls = .gated || i.c
 (which needs tm.mu.RLock) to make room in write_points. -/
 def devLoop (i : Input) : Bool := i.chain.contains .loopback && i.stop ≠ .close && (i.cls = .gated || i.cls = .immediate)
 
+/-- Is there a UDF node somewhere above a failing node? -/
+def udfAboveFailing : List NodeShape → Bool
+  | [] => false
+  | .udf :: rest => rest.contains .failing || udfAboveFailing rest
+  | _ :: rest => udfAboveFailing rest
+
+/-- finding `udf-above-failed-node-blocks-stop`: a UDF node whose child has failed stops consuming (only its
+forwarding goroutine ends); the nodes above it block on its full input edge and the stop, which waits for them
+first, never gets to abort the UDF. -/
+def devUdfFail (i : Input) : Bool := udfAboveFailing i.chain
+
 end Kap.C07
